@@ -17,7 +17,8 @@ int main(int argc, char** argv) {
     FLAGS_logtostderr = true;
     FLAGS_minloglevel = 0;
     vf::Args args(argc, argv);
-    vf::setup_alloc(vf::alloc::Mode::FULL);
+    // under valgrind the tool replaces operator new/delete itself: run without the registry (--alloc=off)
+    vf::setup_alloc(args.str("alloc", "full") == "off" ? vf::alloc::Mode::OFF : vf::alloc::Mode::FULL);
     vf::ctl::install();
     std::string mode = args.str("mode");
     if (mode == "map") { return run_map(args); }
